@@ -2,7 +2,7 @@
    Directives: ExtrOcamlBasic (bool, option, list, prod, unit, sumbool, sumor),
    ExtrOcamlString (ascii -> char, string -> char list).  No Extract Constant of our own. *)
 From Coq Require Import Extraction ExtrOcamlBasic ExtrOcamlString.
-From Ucg Require Import base.Bytes data.Val prec.Climb env.Collector env.Out data.Json data.MapJson data.B64 path.Path sem.Ast sem.Sem sem.FloatInst shell.Shell lex.Lex_Types lex.Vocab lex.Lex.
+From Ucg Require Import base.Bytes data.Val prec.Climb env.Collector env.Out data.Json data.MapJson data.B64 path.Path sem.Ast sem.Sem sem.FloatInst shell.Shell lex.Lex_Types lex.Vocab lex.Lex vm.Ops vm.Translate vm.Vm vm.Compile_Rel vm.Compile_Correct.
 From UcgGen Require Import PrecTable DocPrecTable.
 
 Extraction Language OCaml.
@@ -25,7 +25,11 @@ Definition sem_run (fuel : nat) (envv : list (bytes * bytes)) (strict_ ordered :
   sem_prog b64_ops fuel envv strict_ ordered p.
 Definition sem_float_bits (x : F b64_ops) : Z := f_to_bits b64_ops x.
 
+Definition vm_run_prog (fuel : nat) (envv : list (bytes * bytes)) (strict_ : bool) (p : prog) :=
+  vm_prog b64_ops fuel envv strict_ (translate p).
+
 Extraction "model.ml" climb_code spec_doc dec_of_Z
   test_run exit_code file_spec out_run fs_get with_extension
   json_output json_input json_parse json_print to_json from_json b64_encode b64_decode normalize resolve
-  sem_run sem_float_bits env_emit flags_emit exec_emit sh_words sh_env sh_script esc_sq esc_dq lex lex_all.
+  sem_run sem_float_bits env_emit flags_emit exec_emit sh_words sh_env sh_script esc_sq esc_dq lex lex_all
+  translate vm_run_prog in_fragment.
